@@ -1,1 +1,170 @@
-//! Kani harnesses compiled as a child module of rustzx-core/src/emulator/screenshot/scr.rs (cfg(kani) only).
+//! Kani-only child module of rustzx-core/src/emulator/screenshot/scr.rs (cfg(kani)).
+//! C14 (a 6912-byte SCR puts exactly its bytes on the screen), C15 (scr::load is total).
+#![allow(dead_code)]
+use super::*;
+use crate::{
+    emulator::{
+        snapshot::sna::verif_hooks::{noop_refresh, noop_screen_clocks, Fault, SparseAsset, CTX, FAULT_NONE, NO_WITNESS},
+        verif_hooks::{controller, cpu, mk_emulator},
+    },
+    verif_hooks::VHost,
+    zx::{
+        controller::{verif_hooks as ch, ZXController},
+        machine::ZXMachine,
+        video::screen::ZXScreen,
+    },
+};
+
+// SCR format (public description): exactly 6912 bytes = the 6144 bitmap bytes followed by the 768
+// attribute bytes of the primary screen, i.e. the memory image of 0x4000..0x5AFF.
+const SPEC_SCR_LEN: usize = 6912;
+
+fn dirty_receiver(machine: ZXMachine, latch0: u8) -> Emulator<VHost> {
+    let mut e = mk_emulator(machine, CTX);
+    let c = cpu(&mut e);
+    c.regs.set_pc(kani::any());
+    c.regs.set_sp(kani::any());
+    c.regs.set_hl(kani::any());
+    c.regs.set_iff1(kani::any());
+    if machine == ZXMachine::Sinclair128K {
+        controller(&mut e).write_7ffd(latch0);
+    }
+    e
+}
+
+/// loads an SCR whose first 27 bytes and the byte at `w` are symbolic into a dirty receiver
+fn c14_scr_body(machine: ZXMachine, latch0: u8, w: usize) {
+    let head: [u8; 27] = kani::any();
+    let wv: u8 = kani::any();
+    let asset = SparseAsset::new(SPEC_SCR_LEN, head, [0; 4], w, wv);
+    let mut e = dirty_receiver(machine, latch0);
+    let r = load(&mut e, asset);
+    kani::assert(r.is_ok(), "c14.scr.accepted");
+    kani::assert(e.peek((0x4000 + w) as u16) == wv, "c14.scr.screen_byte_witness");
+    let mut i = 0;
+    while i < 27 {
+        kani::assert(e.peek(0x4000 + i as u16) == head[i], "c14.scr.first_bytes");
+        i += 1;
+    }
+    if machine == ZXMachine::Sinclair128K {
+        // the picture must be in the bank the ULA is displaying
+        let shown = ch::screen_bank(controller(&mut e));
+        kani::assert(controller(&mut e).memory.get_page(0x4000) == crate::zx::memory::Page::Ram(shown), "c14.scr.loaded_into_displayed_bank");
+    }
+}
+
+// @harness
+// @prop C14
+// @tier quick
+// @timeout 600
+// @fn scr::load; CodeGenerator::jump; LoadableAsset::read_exact; ZXMemory::ram_page_data_mut
+// @sym first 27 file bytes, witness file byte (offsets 27, 0x17FF, 0x1800, 0x1AFF enumerated), receiver PC/SP/HL/IFF1; 48K and 128K (7FFD 0x00, 0x13, 0x07 with normal screen)
+// @assert load returns Ok; every kept file byte is the byte the CPU (and the ULA: bank at 0x4000 is the displayed bank) sees at 0x4000 + offset
+// @bound one load per configuration
+// @stub ZXController::refresh_memory_dependent_devices -> no-op; ZXScreen::process_clocks -> no-op (the decode of screen bytes to pixels is C08)
+// @assume 128K receiver shows the normal screen (7FFD bit 3 clear); bit 3 set: KF-C14-7
+// @outside file offsets outside the witness class (one slice copy); what the parked CPU does afterwards (the format does not describe CPU state)
+// @replay solver-only
+#[kani::proof]
+#[kani::unwind(29)]
+#[kani::stub(ZXController::refresh_memory_dependent_devices, noop_refresh)]
+#[kani::stub(ZXScreen::process_clocks, noop_screen_clocks)]
+fn c14_scr_load_shows_file_bytes() {
+    c14_scr_body(ZXMachine::Sinclair48K, 0, 27);
+    c14_scr_body(ZXMachine::Sinclair48K, 0, 0x1AFF);
+    c14_scr_body(ZXMachine::Sinclair128K, 0x00, 0x17FF);
+    c14_scr_body(ZXMachine::Sinclair128K, 0x13, 0x1800);
+    c14_scr_body(ZXMachine::Sinclair128K, 0x27, 0x1AFF);
+    kani::cover!(true, "five configurations done");
+}
+
+// @harness
+// @prop C14
+// @tier quick
+// @timeout 600
+// @expect known:KF-C14-7
+// @fn scr::load; ZXController::write_7ffd
+// @sym file bytes
+// @assert after load_screen on a 128K machine the picture is in the bank the ULA displays
+// @bound one load, receiver had selected the shadow screen (7FFD = 0x08)
+// @stub refresh -> no-op; ZXScreen::process_clocks -> no-op
+// @assume receiver displays bank 7 (the region excluded from c14_scr_load_shows_file_bytes)
+// @replay solver-only
+#[kani::proof]
+#[kani::unwind(29)]
+#[kani::stub(ZXController::refresh_memory_dependent_devices, noop_refresh)]
+#[kani::stub(ZXScreen::process_clocks, noop_screen_clocks)]
+fn c14_known_scr_shadow_screen_active() {
+    c14_scr_body(ZXMachine::Sinclair128K, 0x08, 27);
+    kani::cover!(true, "reached");
+}
+
+// @harness
+// @prop C14
+// @tier quick
+// @timeout 600
+// @expect known:KF-C14-1
+// @fn scr::load
+// @sym file bytes; receiver halted
+// @assert after load_screen the CPU is not left in the halted state of the program that ran before (else the next interrupt bumps PC out of the parking loop)
+// @bound one load, 48K
+// @stub refresh -> no-op; ZXScreen::process_clocks -> no-op
+// @assume receiver was halted
+// @replay solver-only
+#[kani::proof]
+#[kani::unwind(29)]
+#[kani::stub(ZXController::refresh_memory_dependent_devices, noop_refresh)]
+#[kani::stub(ZXScreen::process_clocks, noop_screen_clocks)]
+fn c14_known_scr_halted_survives() {
+    let asset = SparseAsset::new(SPEC_SCR_LEN, kani::any(), [0; 4], NO_WITNESS, 0);
+    let mut e = dirty_receiver(ZXMachine::Sinclair48K, 0);
+    cpu(&mut e).halted = true;
+    let r = load(&mut e, asset);
+    kani::assert(r.is_ok(), "c14.scr.accepted");
+    kani::assert(!cpu(&mut e).halted, "c14.scr.not_halted_after_load");
+    kani::cover!(true, "reached");
+}
+
+// @harness
+// @prop C15
+// @tier quick
+// @timeout 600
+// @fn scr::load; LoadableAsset::read_exact; CodeGenerator::jump
+// @sym first 27 file bytes, receiver registers; sizes 0, 1, 6911, 6913, 49179 and 6912 with Err at asset call 0, 1, 2, a 1-byte short read and a premature Ok(0) at the read; both machines
+// @assert no panic / overflow; wrong sizes are Err without a read; asset failures surface as Err; a short read is retried; at most 6 asset calls; no read request above 6912 bytes
+// @bound 11 loads per machine
+// @stub refresh -> no-op; ZXScreen::process_clocks -> no-op
+// @replay solver-only
+#[kani::proof]
+#[kani::unwind(29)]
+#[kani::stub(ZXController::refresh_memory_dependent_devices, noop_refresh)]
+#[kani::stub(ZXScreen::process_clocks, noop_screen_clocks)]
+fn c15_scr_total() {
+    let cases: [(usize, u8, u8); 11] = [
+        (0, 0xFF, 0), (1, 0xFF, 0), (6911, 0xFF, 0), (6913, 0xFF, 0), (49179, 0xFF, 0),
+        (6912, 0, 0), (6912, 1, 0), (6912, 2, 0), (6912, 2, 1), (6912, 2, 2), (6912, 0xFF, 0),
+    ];
+    let mut m = 0;
+    while m < 2 {
+        let machine = if m == 0 { ZXMachine::Sinclair48K } else { ZXMachine::Sinclair128K };
+        let mut i = 0;
+        while i < 11 {
+            let (size, at, kind) = cases[i];
+            let mut asset = SparseAsset::new(size, kani::any(), [0; 4], NO_WITNESS, 0);
+            asset.fault = Fault { at, kind, n: 1 };
+            let mut e = dirty_receiver(machine, 0x10);
+            let r = load(&mut e, &mut asset);
+            kani::assert(asset.calls <= 6 && asset.max_req <= SPEC_SCR_LEN, "c15.scr.bounded_work");
+            if size != SPEC_SCR_LEN {
+                kani::assert(r.is_err() && asset.max_req == 0, "c15.scr.wrong_size_is_err");
+            } else if at != 0xFF && kind != 1 {
+                kani::assert(r.is_err(), "c15.scr.asset_failure_surfaces_as_err");
+            } else {
+                kani::assert(r.is_ok(), "c15.scr.good_file_loads");
+            }
+            i += 1;
+        }
+        m += 1;
+    }
+    kani::cover!(true, "all cases done");
+}
